@@ -16,6 +16,7 @@ mod packet_window;
 mod ss_udp;
 mod trojan;
 mod vmess;
+mod ws;
 
 fn main() {
     let path = std::env::args().nth(1).expect("spec path");
@@ -50,6 +51,7 @@ fn dispatch(entry: &str, spec: &Value) -> Result<Option<String>, String> {
         "decode" => decode::run(spec),
         "framed" => framed::run(spec),
         "compose" => compose::run(spec),
+        "ws_framed" => ws::run(spec),
         "ss_chunk_limit" => compose::ss_chunk_limit(spec),
         "address_roundtrip" => address::roundtrip(spec),
         "validate_timestamp" => c10::validate_timestamp(spec),
